@@ -130,12 +130,10 @@ pub fn enum_wrappers(bytes: &[u8], f: &Fst<Vec<u8>>, kvs: &Kvs) -> Result<(), St
     let sc = set.clone().map_data(std::sync::Arc::<[u8]>::from).map_err(|e| format!("Set::map_data(Arc) fails: {}", e))?;
     want!(sc.len() == f.len() && sc.stream().into_bytes() == keys, "Set::map_data(Arc<[u8]>) enumerates something else");
     xcount("enum_map_data");
-    // Debug of Map / Set (documented shape: lossy UTF-8 of the keys in order)
+    // Debug of Map / Set: only that it does not panic - its text is no part of any property, and a
+    // maintainer is free to change it
     if total <= 512 {
-        let wm = format!("Map([{}])", kvs.iter().map(|(k, v)| format!("({}, {})", String::from_utf8_lossy(k), v)).collect::<Vec<_>>().join(", "));
-        let ws = format!("Set([{}])", keys.iter().map(|k| String::from_utf8_lossy(k).to_string()).collect::<Vec<_>>().join(", "));
-        want!(format!("{:?}", map) == wm, "Debug for Map prints {:?}, the content is {:?}", map, wm);
-        want!(format!("{:?}", set) == ws, "Debug for Set prints {:?}, the content is {:?}", set, ws);
+        let _ = format!("{:?} {:?}", map, set);
         xcount("enum_debug_map_set");
     }
     // Default = the empty map / set (type 0)
@@ -318,26 +316,20 @@ pub fn node_walk(f: &Fst<Vec<u8>>, kvs: &Kvs, cap: usize) -> Result<(), String> 
                 if !n.is_final() {
                     want!(n.final_output().is_zero(), "node {}: not final but final_output() = {}", addr, n.final_output().value());
                 }
-                // the (hidden, used by fst-bin's debugging commands) state name and byte slice
-                let st = n.state();
-                let want_st = if addr == 0 { "EF" } else if ts.len() == 1 && !n.is_final() { if st == "OTN" { "OTN" } else { "OT" } } else { "AT" };
-                want!(st == want_st, "node {}: state() = {} for a node with {} transitions, final = {}", addr, st, ts.len(), n.is_final());
-                if st == "OTN" {
-                    want!(ts[0].out.is_zero(), "node {}: state OTN but its transition has output {}", addr, ts[0].out.value());
-                }
-                if st == "EF" {
+                // the (hidden, used by fst-bin's debugging commands) state name is only exercised: the
+                // names are private vocabulary; the byte slice must be the node's bytes
+                let _ = n.state();
+                if addr == 0 {
                     want!(n.is_final() && ts.is_empty() && n.final_output().is_zero() && n.as_slice().is_empty(), "node 0 (empty final): is_final/len/final_output/as_slice wrong");
                 } else {
                     want!(!n.as_slice().is_empty() && bytes[..=addr].ends_with(n.as_slice()), "node {}: as_slice() is not the bytes ending at the node's address", addr);
                 }
                 if debugs < 4 {
                     debugs += 1;
-                    let d = format!("{:?}", n);
-                    want!(d.starts_with(&format!("NODE@{}\n", addr)) && d.contains(&format!("# transitions: {}\n", ts.len())) && d.contains(&format!("is_final: {}\n", n.is_final())), "Debug for Node at {} prints {:?}", addr, d);
+                    // Debug output: exercised (must not panic), its text is not constrained
+                    let _ = format!("{:?}", n);
                     if let Some(t) = ts.first() {
-                        let dt = format!("{:?}", t);
-                        let wt = if t.out.is_zero() { format!("{} -> {}", t.inp as char, t.addr) } else { format!("({}, {}) -> {}", t.inp as char, t.out.value(), t.addr) };
-                        want!(dt == wt, "Debug for Transition prints {:?}, want {:?}", dt, wt);
+                        let _ = format!("{:?}", t);
                     }
                 }
             }
